@@ -1278,12 +1278,15 @@ class TransferManager(BaseManager):
                     ticket = await connection.receive_transfer_ticket()
 
             except (ConnectionReadError, asyncio.TimeoutError) as exc:
-                # Connection should automatically be closed
                 logger.warning(
                     "failed to receive transfer ticket on file connection : %s:%d",
                     connection.hostname, connection.port,
                     exc_info=exc
                 )
+                # A read error already closed the connection, the timeout of
+                # this method does not: the peer would wait for ever for the
+                # transfer offset
+                await connection.disconnect(CloseReason.TIMEOUT)
                 return
 
             try:
